@@ -228,8 +228,52 @@ func recoverImpl(path string, im *rec.Image, memKB int, tables []TableDef, batte
 	}
 	if battery {
 		out.Battery = runBattery(db, tables, out.Tables)
+		// every fourth recovered database additionally gets new committed work, is left like a crash again and restarted:
+		// what was committed after a recovery has to survive the next crash as well
+		if out.Battery == "" && atomic.AddInt64(&durabilityCounter, 1)%4 == 0 {
+			out.Battery = durabilityAfterRecovery(out, path, memKB, tables)
+		}
 	}
 	return out
+}
+
+var durabilityCounter int64
+
+// durabilityAfterRecovery commits one more row per table on the recovered database, closes it like a crash, restarts it
+// and expects the recovered rows plus the new ones. The database handle of out is replaced by the restarted one.
+func durabilityAfterRecovery(out *Recovered, path string, memKB int, tables []TableDef) string {
+	db := out.DB
+	want := map[string][]rm.Row{}
+	for _, t := range tables {
+		row := rm.Row{rm.Int(1900000001), rm.Int(78), rm.Str("committed-after-recovery")}
+		sql, _ := sqlx.InsertSQL(t.Name, Cols, []rm.Row{row})
+		var r sqlx.Result
+		if msg := guard(func() { r = db.Auto(sql) }); msg != "" || r.Err != nil || r.Aborted {
+			return fmt.Sprintf("INSERT after recovery on %s: panic=%q err=%v aborted=%v", t.Name, msg, r.Err, r.Aborted)
+		}
+		want[t.Name] = append(append([]rm.Row{}, out.Tables[t.Name]...), row)
+	}
+	guard(func() { db.S.ShutdownForTescase() })
+	out.DB = nil
+	db2, failure, hung := OpenWithTimeout(path, memKB)
+	if hung {
+		out.Hung = true
+		return "restart after post-recovery work and a crash-like close: " + failure
+	}
+	if failure != "" {
+		return "restart after post-recovery work and a crash-like close: " + failure
+	}
+	out.DB = db2
+	for _, t := range tables {
+		var res sqlx.Result
+		if msg := guard(func() { res = db2.ScanAllAuto(t.Name) }); msg != "" || res.Err != nil || res.Aborted {
+			return fmt.Sprintf("scan of %s after post-recovery work, crash-like close and restart: panic=%q err=%v aborted=%v", t.Name, msg, res.Err, res.Aborted)
+		}
+		if d := rm.DiffMultiset(res.Rows, want[t.Name], nil); d != "" {
+			return fmt.Sprintf("table %s after post-recovery committed work, a crash-like close and another restart differs from recovered rows + the committed row: %s", t.Name, d)
+		}
+	}
+	return ""
 }
 
 // Close closes the files of a recovered database without flushing (crash-like) and removes them.
